@@ -267,14 +267,24 @@ def rnd_ast(r, idbase=0):
     def background():
         return {"id": nid(), "location": loc, "keyword": "Background", "name": "", "description": "", "steps": steps()}
 
+    memo = {}
+
     def examples():
         ncol = r.randint(0, 3)
         hdr = r.sample(["h", "g", "x<h>", "h>", "a(b", ".", "h|g"], ncol)
+        if "rows" in memo and r.random() < 0.3:
+            # the same row values under different / reordered headers (stale-cache bait)
+            ncol = len(memo["hdr"])
+            hdr = list(reversed(memo["hdr"])) if r.random() < 0.5 else r.sample(["h", "g", "x<h>", "h>", "a(b", ".", "h|g"], ncol)
         ex = {"tags": tags(r.choice([0, 0, 1, 2])), "location": loc, "keyword": "Examples", "name": "", "description": ""}
         if r.random() < 0.85:
             ex["tableHeader"] = {"id": nid(), "location": loc, "cells": [{"location": loc, "value": h} for h in hdr]}
-            ex["tableBody"] = [{"id": nid(), "location": loc, "cells": [{"location": loc, "value": r.choice(W)} for _ in hdr]}
-                               for _ in range(r.randint(0, 3))]
+            if "rows" in memo and len(memo["hdr"]) == len(hdr) and r.random() < 0.8:
+                vals = memo["rows"]
+            else:
+                vals = [[r.choice(W) for _ in hdr] for _ in range(r.randint(0, 3))]
+                memo["hdr"], memo["rows"] = hdr, vals
+            ex["tableBody"] = [{"id": nid(), "location": loc, "cells": [{"location": loc, "value": v} for v in row]} for row in vals]
         else:
             ex["tableBody"] = []
         ex["id"] = nid()
@@ -465,6 +475,12 @@ def unit_interpolate(ctx):
     for h in headers:
         for v in values:
             reqs.append(("interpolate", ["x<" + h + "><" + h + "y<" + h + ">>", [h], [v]]))
+    # one template, one value, every header in turn (a long-lived Compiler must not remember earlier headers)
+    tall = " ".join("<" + h + ">" for h in headers[:40])
+    for h in headers[:40]:
+        reqs.append(("interpolate", [tall, [h], ["v"]]))
+        reqs.append(("interpolate", [tall, [h, "zz"], ["v", "w"]]))
+        reqs.append(("interpolate", [tall, ["zz", h], ["v", "w"]]))
     uni = ["😀", "é", "\n", "<", ">", "h", " ", "\\", "　"]
     for _ in range(S.n_for(2000, 40000)):
         hs = ["".join(r.choice(uni) for _ in range(r.randint(1, 3))) for _ in range(r.randint(0, 3))]
